@@ -62,7 +62,7 @@ theorem restart_clean {w : World} (h : DeadRec w) (t : HTag) (ev' : EvQ) (hp : t
     ((startWorld w t ev').proc (t.item.b - 1)).held = [] ∧
     ((startWorld w t ev').proc (t.item.b - 1)).waiters = [] := by
   obtain ⟨a, b, c, d, e, f⟩ := startWorld_record w t ev' hp
-  obtain ⟨h1, h2, h3, _⟩ := h _ hfin
+  obtain ⟨h1, h2, h3, _⟩ := h.clean _ hfin
   exact ⟨a, b, c, d.trans h2, e.trans h1, f.trans h3⟩
 
 end CimbaModel.Sim
